@@ -114,7 +114,13 @@ class C04(Spec):
                 w.serve(target, netgen.ok_json(doc, ctype))
             else:
                 w.serve(url, netgen.ok_json(doc, ctype))
-            w.webfinger(name + b"@" + dom.encode())
+            if rng.random() < 0.4 and all(b not in name for b in b"@"):
+                # the whole path of ":open @name": FetchUserInput strips the sigil, resolves, then opens the link it was given
+                tgt = href
+                w.serve(tgt, netgen.ok_json({"type": "Person", "id": tgt, "name": "Target", "preferredUsername": "t", "x": 1}))
+                w.user_input(rng.choice((b"@", b"!")) + name + b"@" + dom.encode())
+            else:
+                w.webfinger(name + b"@" + dom.encode())
         elif t < 0.9:
             # a domain that is not a plain host:port - nothing may be sent anywhere
             dom = w.host(k) + rng.choice(["\r\nX-Injected: yes", " x", "/path", "?q=1", "#frag", "\t", "@" + w.canary(), "\r\n\r\nGET /evil HTTP/1.0\r\n", "%0d%0a", ":", "\x00"])
